@@ -147,6 +147,20 @@ def evaluate(ctx, cases):
                 want = {"err": "JSONPatchError"}
             if impl != want:
                 ctx.violation("using the match's pointer as a patch target must behave as if the match's location had been addressed directly", {**where, "form": form}, impl, want)
+            if form == "pointer-object" and kind == "replace":
+                # a new value that only *looks* like the old one (true for 1, [true] for [1], a number's float) is a new value
+                from .C05 import lookalikes
+                for nv in lookalikes(copy.deepcopy(obj))[1:4]:
+                    ctx.count("replace-lookalike")
+                    r2 = core.outcome(lambda: JSONPatch().replace(ptr, copy.deepcopy(nv)).apply(copy.deepcopy(doc)))
+                    i2 = {"ok": core.canon(r2["ok"])} if "ok" in r2 else {"err": r2["err"]}
+                    try:
+                        w2 = {"ok": core.canon(_direct(doc, parts, "replace", nv))}
+                    except KeyError:
+                        w2 = {"err": "JSONPatchError"}
+                    if i2 != w2:
+                        ctx.violation("replace through the match's pointer must put the new value at exactly that location, also when the new value looks like the old one",
+                                      {**where, "new value": core.canon(nv)}, i2, w2)
             if form == "pointer-text" and isinstance(doc, (dict, list)):
                 # the document handed over as JSON text (the same text again and again, for every match and operation):
                 # each application starts from what the text says
